@@ -157,7 +157,9 @@ fn main() {
         "mutate" => mutate::run(arg_u64(&args, "--seed", 1), arg(&args, "--bases").unwrap(), arg(&args, "--outdir").unwrap(), arg_u64(&args, "--count", 100), arg(&args, "--list").unwrap()),
         "deviate" => deviate::run(arg_u64(&args, "--seed", 1), arg(&args, "--bases").unwrap(), arg(&args, "--outdir").unwrap(), arg_u64(&args, "--combos", 3), arg(&args, "--list").unwrap()),
         "locks" => {
-            if args.iter().any(|a| a == "--steer") {
+            if args.iter().any(|a| a == "--atomic") {
+                locks::atomic();
+            } else if args.iter().any(|a| a == "--steer") {
                 locks::steer();
             } else if args.iter().any(|a| a == "--stress") {
                 locks::stress(arg_u64(&args, "--readers", 3) as usize, arg_u64(&args, "--millis", 1000));
